@@ -2,7 +2,7 @@
    task (Model/Stack.v), for every world.  NOT proved: the composed round schedule over the loop; checked on every
    run (check_C13, with liveness of offers computed by the abstract TTL-store specification). *)
 From PS Require Import Lib.Base Generated.Consts Model.SdTypes Model.Config Model.Session Model.StackTypes Model.Stack
-  Proofs.StackOpsProofs.
+  Proofs.StackOpsProofs Model.Skel Generated.LogicGen Proofs.GenSkel.
 
 Theorem C13_round_content : forall w, find_entries w
   = flat_map (fun p => if service_found (fst p) w then [] else [create_find_entry (fst p) (t_find_ttl (cfg w))]) (watched w).
@@ -18,7 +18,32 @@ Theorem C13_quiet_when_all_found : forall t w tk,
   find_entries w = [] -> task_step t w = finish_task t w.
 Proof. exact find_quiet_when_all_found. Qed.
 
+(* the find task of the model is the coroutine ServiceDiscover.send_find_services as translated from the source text
+   (harness/gen_logic.py gen_find_task: comprehension of _build_entries, _service_found, the delay (2 ** i) * base, range(REPETITIONS_MAX)) *)
+Theorem C13_service_found_is_the_translated_source : forall f w,
+  service_found f w
+  = gen_service_found (fun s k => match k with KService s' => matches_service s s' | _ => false end) f (store_keys (found w)).
+Proof. exact service_found_is_the_translated_source. Qed.
+Theorem C13_find_entries_is_the_translated_source : forall w,
+  find_entries w = gen_find_entries (fun s => service_found s w) create_find_entry (t_find_ttl (cfg w)) (map fst (watched w)).
+Proof. exact find_entries_is_the_translated_source. Qed.
+Theorem C13_find_next_is_the_translated_source : forall t i w,
+  find_next t i w
+  = if gen_find_has_round i (t_rep_max (cfg w)) then task_sleep t TFind (gen_find_delay i (t_rep_base (cfg w))) 2 i w
+    else finish_task t w.
+Proof. exact find_next_is_the_translated_source. Qed.
+Theorem C13_find_round_is_the_translated_source : forall t w tk,
+  get_task t w = Some tk -> tk_done tk = false -> tk_must_cancel tk = false -> tk_kind tk = TFind -> 1 <= tk_pc tk ->
+  task_step t w
+  = gen_find_round (find_entries w) (fun es => send_sd es None)
+      (find_next t (if tk_pc tk =? 1 then 0 else tk_i tk + 1)) (finish_task t) w.
+Proof. exact find_round_is_the_translated_source. Qed.
+
 Print Assumptions C13_round_content.
 Print Assumptions C13_wildcards_preserved.
 Print Assumptions C13_rounds_bounded.
 Print Assumptions C13_quiet_when_all_found.
+Print Assumptions C13_service_found_is_the_translated_source.
+Print Assumptions C13_find_entries_is_the_translated_source.
+Print Assumptions C13_find_next_is_the_translated_source.
+Print Assumptions C13_find_round_is_the_translated_source.
